@@ -1344,7 +1344,16 @@ async fn run_async(scn: &Scenario, chooser: &mut dyn Chooser) -> Result<Trace, S
     }
     w.settle().await;
     let mut late_probe = None;
-    for round in 0..3 {
+    // at least 3 ticks; then keep ticking (up to 6 s of virtual time) while a re-idle timer may
+    // still be running, so that the length of the re-idle delay is not baked into the oracles
+    for round in 0..60 {
+        if round >= 3 {
+            // after a fault the loop may sit in its re-idle window before it runs into the fault
+            let waiting_for_exit = w.fault.is_some() && !w.sh().io_dropped && round < 30;
+            if !w.strict_tick() && !waiting_for_exit {
+                break;
+            }
+        }
         if round == 0 && scn.late_probe {
             if let Some(c) = w.client.clone() {
                 // a later request on a fresh handle
